@@ -1,3 +1,545 @@
-import PybtexModel.Model.Basic
+/-
+C17 — string / bytes / stream / file entry points agree; I/O faults become pybtex errors.
+
+Property theorems only.  Model: `Model/IO.lean` (follows /repo with the proposed fixes C17-1..3),
+reference for the plug-in registry: `Spec/Plugins.lean`, helper lemmas and the Boolean table checks:
+`Lemmas/IO.lean`, regenerated tables: `Gen/Plugins.lean`, `Gen/PluginClasses.lean`.
+
+Abstract throughout (parameters of every statement): the codec, the plug-in's own parsing / printing
+core, ElementTree, the opener, the bytes behind a handle, kpsewhich, the environment.
+-/
+import PybtexModel.Lemmas.IO
+import PybtexModel.Gen.Plugins
+import PybtexModel.Gen.PluginClasses
+
 namespace Pybtex.Props
+open Pybtex Pybtex.IO
+
+/-! ## readers -/
+
+/-- **Parse entry points** (BaseParser, both `unicode_io` values, and the BibTeX class).
+If the encoding can represent the text (`dec (enc s) = s`), then parsing the encoded bytes, a stream
+holding the document, a file-like object, a file containing the bytes, and `parse_files` with the name
+split into base + suffix, are all the same computation as parsing the string: same database, same error. -/
+theorem C17_parse_entry_points {Db E Tree H : Type}
+    (k : ReaderKind) (hk : k ≠ .bibtexml)
+    (core : ReaderCore Db E Tree) (c : Codec) (encName : Str) (env : Env H) (content : H → Bytes)
+    (data : Db) (s : Str) (p : Path) (h : H)
+    (hrt : c.dec (c.enc s) = .ok s)
+    (hfile : env.isFile p = true) (hopen : ∀ mode kw, env.opener p mode kw = .ok h)
+    (hcontent : content h = c.enc s) :
+    parseBytes k core c data (c.enc s) = parseString k core c data s ∧
+    parseStream k core data (docStream k c s) = parseString k core c data s ∧
+    (parseFile k core c encName env content data (.stream (docStream k c s)) none).2 = parseString k core c data s ∧
+    (parseFile k core c encName env content data (.path p) none).2 = parseString k core c data s ∧
+    (∀ base sfx, base ++ sfx = p →
+      (parseFiles k core c encName env content (some sfx) data [base]).2 = parseString k core c data s) := by
+  have hfilePath : (parseFile k core c encName env content data (.path p) none).2 = parseString k core c data s := by
+    cases k with
+    | bibtexml => exact absurd rfl hk
+    | bibtex =>
+      simp [parseFile, ReaderKind.unicodeIO, openUnicode, pyOpen, openExisting, hfile, hopen, readOpened,
+        hcontent, hrt, parseStream, parseString]
+    | base u =>
+      cases u <;>
+      simp [parseFile, ReaderKind.unicodeIO, openUnicode, openRaw, pyOpen, openExisting, hfile, hopen, readOpened,
+        hcontent, hrt, parseStream, parseString]
+  refine ⟨?_, ?_, ?_, hfilePath, ?_⟩
+  · cases k with
+    | bibtexml => exact absurd rfl hk
+    | bibtex => simp [parseBytes, ReaderKind.unicodeIO, hrt]
+    | base u => cases u <;> simp [parseBytes, parseString, ReaderKind.unicodeIO, hrt]
+  · cases k with
+    | bibtexml => exact absurd rfl hk
+    | bibtex => simp [docStream, ReaderKind.unicodeIO, parseStream, parseString]
+    | base u => cases u <;> simp [docStream, ReaderKind.unicodeIO, parseStream, parseString]
+  · cases k with
+    | bibtexml => exact absurd rfl hk
+    | bibtex =>
+      simp [parseFile, docStream, ReaderKind.unicodeIO, openUnicode, pyOpen, readOpened, parseStream, parseString]
+    | base u =>
+      cases u <;>
+      simp [parseFile, docStream, ReaderKind.unicodeIO, openUnicode, openRaw, pyOpen, readOpened, parseStream, parseString]
+  · intro base sfx hp
+    subst hp
+    have : (parseFile k core c encName env content data (.path base) (some sfx)).2 =
+        (parseFile k core c encName env content data (.path (base ++ sfx)) none).2 := by
+      simp [parseFile]
+    simp only [parseFiles]
+    rw [← hfilePath, ← this]
+    cases (parseFile k core c encName env content data (.path base) (some sfx)).2 <;> rfl
+
+/-- the hypotheses of `C17_parse_entry_points` hold in a concrete world, for both `unicode_io` values
+and a non-ASCII document, and the common result is the core's answer on the document -/
+theorem C17_parse_entry_points_nonvacuous :
+    let s := "@a{k, t = {café}}".toList
+    let content : Path → Bytes := fun _ => Toy.enc s
+    Toy.codec.dec (Toy.codec.enc s) = .ok s ∧
+    Toy.env.isFile "f.bib".toList = true ∧
+    (∀ mode kw, mode.contains 'w' = false → Toy.env.opener "f.bib".toList mode kw = .ok "f.bib".toList) ∧
+    (parseFile (.base true) Toy.reader Toy.codec "L1".toList Toy.env content [] (.path "f.bib".toList) none).2
+      = .ok [.text s] ∧
+    (parseFile (.base false) Toy.reader Toy.codec "L1".toList Toy.env content [] (.path "f.bib".toList) none).2
+      = .ok [.binary (Toy.enc s)] ∧
+    parseBytes (.base true) Toy.reader Toy.codec [] (Toy.enc s) = .ok [.text s] ∧
+    parseString (.base false) Toy.reader Toy.codec [] s = .ok [.binary (Toy.enc s)] := by
+  refine ⟨by decide, by decide, ?_, by decide, by decide, by decide, by decide⟩
+  intro mode kw hm
+  simp only [Toy.env, hm, Bool.false_eq_true, if_false, if_true]
+
+/-- **Parse entry points, BibTeXML.**  An XML byte document says itself how it is encoded, so the bytes
+that correspond to the text `s` are any `b` that ElementTree reads as it reads `s` (for instance
+`enc (xmlDecl name ++ s)`, what the BibTeXML writer produces).  For such bytes: `parse_bytes`,
+`parse_stream`, a file-like object and a file containing them all equal `parse_string s`, whatever
+`encoding` the parser was created with. -/
+theorem C17_parse_entry_points_bibtexml {Db E Tree H : Type}
+    (core : ReaderCore Db E Tree) (c : Codec) (encName : Str) (env : Env H) (content : H → Bytes)
+    (data : Db) (s : Str) (b : Bytes) (p : Path) (h : H)
+    (het : core.fromBytes b = core.fromStr s)
+    (hfile : env.isFile p = true) (hopen : ∀ mode kw, env.opener p mode kw = .ok h)
+    (hcontent : content h = b) :
+    parseBytes .bibtexml core c data b = parseString .bibtexml core c data s ∧
+    parseStream .bibtexml core data (.binary b) = parseString .bibtexml core c data s ∧
+    (parseFile .bibtexml core c encName env content data (.stream (.binary b)) none).2
+      = parseString .bibtexml core c data s ∧
+    (parseFile .bibtexml core c encName env content data (.path p) none).2
+      = parseString .bibtexml core c data s := by
+  refine ⟨?_, ?_, ?_, ?_⟩
+  · simp [parseBytes, parseString, het]
+  · simp [parseStream, parseString, het]
+  · simp [parseFile, ReaderKind.unicodeIO, openRaw, pyOpen, readOpened, parseStream, parseString, het]
+  · simp [parseFile, ReaderKind.unicodeIO, openRaw, pyOpen, openExisting, hfile, hopen, readOpened, hcontent,
+      parseStream, parseString, het]
+
+theorem C17_parse_entry_points_bibtexml_nonvacuous :
+    let s := "<f>café</f>".toList
+    let b := Toy.enc (xmlDecl "L1".toList ++ s)
+    Toy.reader.fromBytes b = Toy.reader.fromStr s ∧
+    parseBytes .bibtexml Toy.reader Toy.codec ([] : List Stream) b = .ok [.text s] := by
+  decide
+
+/-! ## writers -/
+
+/-- **Write entry points** (BaseWriter, both `unicode_io` values).
+`unicode_io` classes: `to_bytes` is `to_string` encoded — unconditionally, error for error.
+Byte classes: `to_string` is `to_bytes` decoded; so `to_bytes` is `to_string` encoded as soon as the codec
+re-encodes what it decodes.  For both: `write_file` to a name that can be opened leaves exactly the bytes
+of `to_bytes` in that file (after a single open attempt), a file-like object receives what `write_stream`
+writes, and an error of the plug-in's core is the same error from every entry point. -/
+theorem C17_write_entry_points {Db E H S : Type}
+    (u : Bool) (core : WriterCore Db E) (c utf8 : Codec) (encName : Str) (env : Env H)
+    (d : Db) (p : Path) (h : H) (hopen : ∀ mode kw, env.opener p mode kw = .ok h) :
+    (u = true → toBytes (.base u) core c encName d = (toStr (.base u) core c utf8 encName d).map c.enc) ∧
+    (u = false → ∀ b, toBytes (.base u) core c encName d = .ok b →
+        toStr (.base u) core c utf8 encName d = (c.dec b).mapError WErr.unicodeDecode ∧
+        ((∀ b' s', c.dec b' = .ok s' → c.enc s' = b') →
+          ∀ s, toStr (.base u) core c utf8 encName d = .ok s → b = c.enc s)) ∧
+    (∀ b, toBytes (.base u) core c encName d = .ok b →
+        ∃ ev, writeFile (.base u) core c encName env d (.path p : FileArg S) = ([ev], .ok (.file h b))) ∧
+    (∀ (st : S) payload, writeStream (.base u) core c encName d = .ok payload →
+        writeFile (.base u) core c encName env d (.stream st) = ([], .ok (.stream st payload))) ∧
+    (∀ e, toBytes (.base u) core c encName d = .error e →
+        (writeFile (.base u) core c encName env d (.path p : FileArg S)).2 = .error e ∧
+        toStr (.base u) core c utf8 encName d = .error e) := by
+  cases u with
+  | true =>
+    refine ⟨?_, ?_, ?_, ?_, ?_⟩
+    · intro _
+      simp only [toBytes, toStr, writeStream]
+      cases core.writeText d <;> rfl
+    · intro hu; cases hu
+    · intro b hb
+      simp only [toBytes, writeStream] at hb
+      cases hw : core.writeText d with
+      | error e => simp [hw] at hb
+      | ok s =>
+        simp only [hw, Except.ok.injEq] at hb
+        subst hb
+        refine ⟨_, ?_⟩
+        simp [writeFile, WriterKind.unicodeIO, openUnicode, pyOpen, openOrCreate, hopen, writeStream, hw]
+        rfl
+    · intro st payload hp
+      simp [writeFile, WriterKind.unicodeIO, openUnicode, pyOpen, hp]
+    · intro e he
+      simp only [toBytes, writeStream] at he
+      cases hw : core.writeText d with
+      | ok s => simp [hw] at he
+      | error e' =>
+        simp only [hw, Except.error.injEq] at he
+        subst he
+        simp [writeFile, WriterKind.unicodeIO, openUnicode, pyOpen, openOrCreate, hopen, writeStream, hw, toStr]
+  | false =>
+    refine ⟨?_, ?_, ?_, ?_, ?_⟩
+    · intro hu; cases hu
+    · intro _ b hb
+      simp only [toBytes, writeStream] at hb
+      cases hw : core.writeBytes d with
+      | error e => simp [hw] at hb
+      | ok b' =>
+        simp only [hw, Except.ok.injEq] at hb
+        subst hb
+        constructor
+        · simp only [toStr, writeStream, hw]
+          cases c.dec b' <;> rfl
+        · intro hcodec s hs
+          simp only [toStr, writeStream, hw] at hs
+          cases hdec : c.dec b' with
+          | error m => simp [hdec] at hs
+          | ok s' =>
+            simp only [hdec, Except.ok.injEq] at hs
+            subst hs
+            exact (hcodec _ _ hdec).symm
+    · intro b hb
+      simp only [toBytes, writeStream] at hb
+      cases hw : core.writeBytes d with
+      | error e => simp [hw] at hb
+      | ok b' =>
+        simp only [hw, Except.ok.injEq] at hb
+        subst hb
+        refine ⟨_, ?_⟩
+        simp [writeFile, WriterKind.unicodeIO, openRaw, pyOpen, openOrCreate, hopen, writeStream, hw]
+        rfl
+    · intro st payload hp
+      simp [writeFile, WriterKind.unicodeIO, openRaw, pyOpen, hp]
+    · intro e he
+      simp only [toBytes, writeStream] at he
+      cases hw : core.writeBytes d with
+      | ok s => simp [hw] at he
+      | error e' =>
+        simp only [hw, Except.error.injEq] at he
+        subst he
+        simp [writeFile, WriterKind.unicodeIO, openRaw, pyOpen, openOrCreate, hopen, writeStream, hw, toStr]
+
+theorem C17_write_entry_points_nonvacuous :
+    let d := "café\n".toList
+    (∀ mode kw, mode.contains 'w' = true → Toy.env.opener "/out/x.bib".toList mode kw = .ok "/out/x.bib".toList) ∧
+    toStr (.base true) Toy.writer Toy.codec Toy.codec "L1".toList d = .ok d ∧
+    toBytes (.base true) Toy.writer Toy.codec "L1".toList d = .ok (Toy.enc d) ∧
+    writeFile (.base true) Toy.writer Toy.codec "L1".toList Toy.env d (.path "/out/x.bib".toList : FileArg Unit)
+      = ([.tryOpen "/out/x.bib".toList "w".toList (some "L1".toList)], .ok (.file "/out/x.bib".toList (Toy.enc d))) := by
+  refine ⟨?_, by decide, by decide, by decide⟩
+  intro mode kw hm
+  simp only [Toy.env, hm, if_true]
+  decide
+
+/-- **Write entry points, BibTeXML.**  `to_bytes` is the XML declaration naming the encoding, the
+`to_string` document and the final newline, encoded; `write_file` leaves exactly those bytes.
+(`hshape`: the generated document ends in one newline and has no other outer white space — `to_string`
+strips it.) -/
+theorem C17_write_entry_points_bibtexml {Db E H S : Type}
+    (core : WriterCore Db E) (c utf8 : Codec) (encName : Str) (env : Env H)
+    (d : Db) (p : Path) (h : H) (body : Str)
+    (hutf8 : ∀ t, utf8.dec (utf8.enc t) = .ok t)
+    (hbody : core.xmlBody d = .ok body) (hshape : body = strip body ++ ['\n'])
+    (hopen : ∀ mode kw, env.opener p mode kw = .ok h) :
+    ∃ doc, toStr .bibtexml core c utf8 encName d = .ok doc ∧
+      toBytes .bibtexml core c encName d = .ok (c.enc (xmlDecl encName ++ doc ++ ['\n'])) ∧
+      (writeFile .bibtexml core c encName env d (.path p : FileArg S)).2
+        = .ok (.file h (c.enc (xmlDecl encName ++ doc ++ ['\n']))) := by
+  refine ⟨strip body, ?_, ?_, ?_⟩
+  · simp [toStr, hbody, hutf8]
+  · simp only [toBytes, writeStream, hbody]
+    rw [List.append_assoc, ← hshape]
+  · simp only [writeFile, WriterKind.unicodeIO, openRaw, pyOpen, openOrCreate, hopen, writeStream, hbody]
+    simp only [Bool.false_eq_true, if_false]
+    rw [List.append_assoc, ← hshape]
+    simp [String.toList, List.contains]
+
+theorem C17_write_entry_points_bibtexml_nonvacuous :
+    let d := "<f>café</f>".toList
+    Toy.writer.xmlBody d = .ok (d ++ ['\n']) ∧ d ++ ['\n'] = strip (d ++ ['\n']) ++ ['\n'] ∧
+    toBytes .bibtexml Toy.writer Toy.codec "L1".toList d = .ok (Toy.enc (xmlDecl "L1".toList ++ d ++ ['\n'])) := by
+  decide
+
+/-! ## the plug-in tables -/
+
+/-- **Suffix = name**, over the regenerated tables.  For every entry `(base.suffixes, sfx, k)` of a
+suffix table: (i) `find_plugin(base, filename=f)` returns `k` for EVERY file name `f = dir/stem.sfx`
+(any directory prefix, any stem that is not periods only), (ii) `k` is also what some name or alias of
+the base group selects; and (iii) every class registered under a name of a base group that declares a
+`default_suffix` is what a file name with that suffix selects.  An edit of the tables in /repo that
+breaks any of this breaks the `decide`. -/
+theorem C17_suffix_eq_name :
+    (∀ base dflt g sfx k, (base, dflt) ∈ Gen.defaultPlugins → (g, sfx, k) ∈ Gen.installedPlugins →
+        g = base ++ ".suffixes".toList →
+        (∀ dir stem, goodDir dir = true → goodStem stem = true →
+          findPlugin Gen.installedPlugins Gen.defaultPlugins [] base .none (some (dir ++ stem ++ sfx)) = .ok k) ∧
+        (∃ n, findPlugin Gen.installedPlugins Gen.defaultPlugins [] base (.str n) none = .ok k)) ∧
+    (∀ base dflt n k s, (base, dflt) ∈ Gen.defaultPlugins → (base, n, k) ∈ Gen.installedPlugins →
+        dget Gen.classDefaultSuffix k = some (some s) →
+        ∀ dir stem, goodDir dir = true → goodStem stem = true →
+          findPlugin Gen.installedPlugins Gen.defaultPlugins [] base .none (some (dir ++ stem ++ s)) = .ok k) := by
+  have h1 : suffixTableOK Gen.installedPlugins Gen.defaultPlugins = true := by decide +kernel
+  have h2 : defaultSuffixOK Gen.installedPlugins Gen.defaultPlugins Gen.classDefaultSuffix = true := by decide +kernel
+  constructor
+  · intro base dflt g sfx k hb he hg
+    have hd := dhas_of_mem _ _ _ hb
+    have := List.all_eq_true.1 (List.all_eq_true.1 h1 _ hb) _ he
+    simp only [hg, if_true, suffixEntryOK, Bool.and_eq_true, isOk_iff, List.any_eq_true] at this
+    obtain ⟨⟨hs, hl⟩, e, _, hn⟩ := this
+    refine ⟨fun dir stem hdir hstem => ?_, e.2.1, hn⟩
+    rw [findPlugin_by_suffix _ _ _ _ _ _ _ hd hdir hstem hs, hl]
+  · intro base dflt n k s hb he hs dir stem hdir hstem
+    have hd := dhas_of_mem _ _ _ hb
+    have := List.all_eq_true.1 (List.all_eq_true.1 h2 _ hb) _ he
+    simp only [if_true, hs, Bool.and_eq_true, isOk_iff] at this
+    rw [findPlugin_by_suffix _ _ _ _ _ _ _ hd hdir hstem this.1, this.2]
+
+/-- the quantifiers of `C17_suffix_eq_name` range over something: five reader suffixes, e.g. `.bibtexml` -/
+theorem C17_suffix_eq_name_nonvacuous :
+    ("pybtex.database.input".toList, "bibtex".toList) ∈ Gen.defaultPlugins ∧
+    ("pybtex.database.input.suffixes".toList, ".bibtexml".toList, "pybtex.database.input.bibtexml:Parser".toList)
+      ∈ Gen.installedPlugins ∧
+    goodDir "/tmp/a.b/".toList = true ∧ goodStem "..x.y".toList = true ∧
+    findPlugin Gen.installedPlugins Gen.defaultPlugins [] "pybtex.database.input".toList .none
+      (some "/tmp/a.b/..x.y.bibtexml".toList) = .ok "pybtex.database.input.bibtexml:Parser".toList ∧
+    findPlugin Gen.installedPlugins Gen.defaultPlugins [] "pybtex.database.input".toList
+      (.str "bibtexml".toList) none = .ok "pybtex.database.input.bibtexml:Parser".toList := by
+  decide +kernel
+
+/-- The regenerated tables are well formed: no (group, name) twice, every group is a base group of
+`_DEFAULT_PLUGINS` or its `.aliases` / `.suffixes` companion, every default plug-in exists, what
+`importlib.metadata` reports is what /repo/setup.py declares, and every installed reader / writer class
+is wired in one of the ways the model knows (`unicode_io` + the set of overridden entry points). -/
+theorem C17_tables_wf :
+    keysNodup Gen.installedPlugins = true ∧
+    groupsKnown Gen.installedPlugins Gen.defaultPlugins = true ∧
+    defaultsExist Gen.installedPlugins Gen.defaultPlugins = true ∧
+    Gen.installedPlugins = Gen.declaredPlugins ∧
+    readerKindsKnown Gen.readerClasses = true ∧
+    writerKindsKnown Gen.writerClasses = true := by
+  refine ⟨by decide +kernel, by decide +kernel, by decide +kernel, by decide +kernel, by decide +kernel, by decide +kernel⟩
+
+/-! ## the run-time registry -/
+
+/-- **Run-time plug-ins**, in the registry reached by ANY history of calls from the empty registry,
+for any installed table, and any key `(g, n)` that passes the argument checks:
+(a) if the key is free (neither registered nor installed) or the call is forced, `register_plugin`
+    returns `True`, afterwards exactly that key yields `k`, and every other key is untouched;
+(b) if the key is taken and the call is not forced, it returns `False` and changes nothing — this covers
+    the second registration of a run-time plug-in as well as an installed entry;
+(c) (a) and (b) are the behaviour of the one-table reference, for the whole history (results and
+    final table). -/
+theorem C17_runtime_plugins (tbl : Installed) (defaults : List (Str × Str)) (ops : List PlugOp)
+    (g n : Str) (k : Cls) (base : Str)
+    (hb : baseGroup g n = .ok base) (hd : dhas defaults base = true) :
+    let R := (plugRun tbl defaults [] ops).1
+    (∀ force, (eff tbl R g n = none ∨ force = true) →
+        ∃ R', registerPlugin tbl defaults R g n k force = .ok (R', true) ∧
+          loadEntryPoint tbl R' g n false = .ok k ∧
+          ∀ g' n', ¬ (g' = g ∧ n' = n) →
+            loadEntryPoint tbl R' g' n' false = loadEntryPoint tbl R g' n' false) ∧
+    (∀ k0, eff tbl R g n = some k0 →
+        registerPlugin tbl defaults R g n k false = .ok (R, false) ∧
+        loadEntryPoint tbl R g n false = .ok k0) ∧
+    (eff tbl R = (specRun defaults (installedLookup tbl) ops).1 ∧
+      (plugRun tbl defaults [] ops).2 = (specRun defaults (installedLookup tbl) ops).2) := by
+  intro R
+  refine ⟨?_, ?_, ?_⟩
+  · intro force hfree
+    obtain ⟨R', h1, h2⟩ := registerPlugin_refines tbl defaults R g n k force base hb hd
+    have hreg : Spec.Plugins.register (eff tbl R) g n k force
+        = (fun g' n' => if g' = g ∧ n' = n then some k else eff tbl R g' n', true) := by
+      simp only [Spec.Plugins.register]
+      rcases hfree with hf | hf
+      · simp [hf]
+      · simp [hf]
+    rw [hreg] at h1 h2
+    refine ⟨R', h1, ?_, ?_⟩
+    · rw [loadEntryPoint_exact, h2]; simp [Spec.Plugins.load, optToExcept]
+    · intro g' n' hne
+      rw [loadEntryPoint_exact, loadEntryPoint_exact, h2]
+      simp [Spec.Plugins.load, hne]
+  · intro k0 hk
+    obtain ⟨R', h1, _⟩ := registerPlugin_refines tbl defaults R g n k false base hb hd
+    have hreg : Spec.Plugins.register (eff tbl R) g n k false = (eff tbl R, false) := by
+      simp [Spec.Plugins.register, hk]
+    constructor
+    · -- the registry itself is unchanged, not only its meaning
+      have hsome : ((runtimeGet R g n).isSome || (installedLookup tbl g n).isSome) = true := by
+        simp only [eff] at hk
+        cases hr : runtimeGet R g n with
+        | some x => simp
+        | none => simp only [hr] at hk; simp [hk]
+      simp [registerPlugin, hb, hd, hsome]
+    · rw [loadEntryPoint_exact]; simp [Spec.Plugins.load, hk, optToExcept]
+  · have := plugRun_refines tbl defaults [] ops
+    rw [eff_nil] at this
+    exact this
+
+theorem C17_runtime_plugins_nonvacuous :
+    let tbl := Gen.installedPlugins
+    let dfl := Gen.defaultPlugins
+    let g := "pybtex.style.formatting".toList
+    baseGroup g "yippikayee".toList = .ok g ∧ dhas dfl g = true ∧
+    (plugRun tbl dfl []
+      [.register g "yippikayee".toList "K1".toList false,
+       .find g (.str "yippikayee".toList) none,
+       .register g "yippikayee".toList "K2".toList false,
+       .find g (.str "yippikayee".toList) none,
+       .register g "yippikayee".toList "K2".toList true,
+       .find g (.str "yippikayee".toList) none,
+       .register g "plain".toList "K2".toList false,
+       .find g (.str "plain".toList) none]).2
+    = [.bool true, .cls "K1".toList, .bool false, .cls "K1".toList, .bool true, .cls "K2".toList,
+       .bool false, .cls "pybtex.style.formatting.plain:Style".toList] := by
+  decide +kernel
+
+/-- **Found exactly like installed ones.**  After a successful registration (any earlier registry `R`):
+a name is found by name; an alias is found by name as long as no real name of the base group hides it
+(the same precedence installed names have over installed aliases); a suffix is found from every file
+name `dir/stem.sfx`. -/
+theorem C17_runtime_found_like_installed (tbl : Installed) (defaults : List (Str × Str)) (R R' : Registry)
+    (base : Str) (c : Char) (n : Str) (k : Cls) (force : Bool) (hd : dhas defaults base = true) :
+    (registerPlugin tbl defaults R base (c :: n) k force = .ok (R', true) →
+        findPlugin tbl defaults R' base (.str (c :: n)) none = .ok k) ∧
+    (registerPlugin tbl defaults R (base ++ ".aliases".toList) (c :: n) k force = .ok (R', true) →
+        eff tbl R' base (c :: n) = none →
+        findPlugin tbl defaults R' base (.str (c :: n)) none = .ok k) ∧
+    (registerPlugin tbl defaults R (base ++ ".suffixes".toList) (c :: n) k force = .ok (R', true) →
+        goodSuffix (c :: n) = true →
+        ∀ dir stem, goodDir dir = true → goodStem stem = true →
+          findPlugin tbl defaults R' base .none (some (dir ++ stem ++ c :: n)) = .ok k) := by
+  have key : ∀ g, registerPlugin tbl defaults R g (c :: n) k force = .ok (R', true) →
+      eff tbl R' g (c :: n) = some k := by
+    intro g h
+    unfold registerPlugin at h
+    cases hb : baseGroup g (c :: n) with
+    | error e => simp [hb] at h
+    | ok b =>
+      simp only [hb] at h
+      split at h
+      · cases h
+      · split at h
+        · cases h
+        · simp only [Except.ok.injEq, Prod.mk.injEq, and_true] at h
+          subst h
+          simp [eff, runtimeGet_runtimeSet]
+  have hdg : ∃ dflt, dget defaults base = some dflt := by
+    simp only [dhas] at hd
+    cases hg : dget defaults base with
+    | none => simp [hg] at hd
+    | some x => exact ⟨x, rfl⟩
+  obtain ⟨dflt, hdg⟩ := hdg
+  refine ⟨fun h => ?_, fun h hfree => ?_, fun h hs dir stem hdir hstem => ?_⟩
+  · simp only [findPlugin, hdg, loadEntryPoint_aliases, Spec.Plugins.findName, key _ h, optToExcept]
+  · simp only [findPlugin, hdg, loadEntryPoint_aliases, Spec.Plugins.findName, hfree, key _ h, optToExcept]
+  · rw [findPlugin_by_suffix _ _ _ _ _ _ _ hd hdir hstem hs, loadEntryPoint_exact]
+    simp only [Spec.Plugins.load, key _ h, optToExcept]
+
+/-- **Installed entries are never shadowed unless forced**: after ANY history in which no registration
+is forced, every installed key still yields its installed class. -/
+theorem C17_installed_not_shadowed (tbl : Installed) (defaults : List (Str × Str)) (ops : List PlugOp)
+    (hu : unforced ops = true) (g n : Str) (k0 : Cls) (hi : installedLookup tbl g n = some k0) :
+    loadEntryPoint tbl (plugRun tbl defaults [] ops).1 g n false = .ok k0 := by
+  have hns := noShadow_run tbl defaults [] ops (noShadow_nil tbl) hu
+  rw [loadEntryPoint_exact]
+  simp only [Spec.Plugins.load, eff]
+  cases hr : runtimeGet (plugRun tbl defaults [] ops).1 g n with
+  | none => simp [hi, optToExcept]
+  | some x =>
+    have := hns g n (by simp [hr])
+    rw [hi] at this; cases this
+
+/-- … and forcing is what it takes: one forced registration on an installed key replaces it. -/
+theorem C17_installed_not_shadowed_nonvacuous :
+    let g := "pybtex.database.input".toList
+    installedLookup Gen.installedPlugins g "yaml".toList = some "pybtex.database.input.bibyaml:Parser".toList ∧
+    unforced [.register g "yaml".toList "K".toList false, .register (g ++ ".aliases".toList) "yaml".toList "K".toList false] = true ∧
+    loadEntryPoint Gen.installedPlugins
+      (plugRun Gen.installedPlugins Gen.defaultPlugins [] [.register g "yaml".toList "K".toList true]).1
+      g "yaml".toList false = .ok "K".toList := by
+  decide +kernel
+
+/-! ## opening files -/
+
+/-- **Open faults.**  For every world (`env` is arbitrary, so every pattern of failures), every name,
+mode and encoding:
+(1) a file-like object comes back untouched and nothing is opened;
+(2) whatever fails, the error is the pybtex error for the name the caller gave;
+(3) reading: one attempt — at the name if it is a file, else at what `kpsewhich` finds, else at the name;
+    failure of the attempt, or of running `kpsewhich`, is the pybtex error carrying that failure's text;
+(4) writing: success of the first attempt is success; on failure, without `TEXMFOUTPUT` the error is
+    immediate (one attempt); with it there is a second attempt at `posixpath.join(TEXMFOUTPUT, name)`,
+    whose success is success, and whose failure reports the FIRST failure, for the original name. -/
+theorem C17_open_faults {H S : Type} (env : Env H) (p : Path) (mode : Str) (kw : Option Str) :
+    (∀ s : S, pyOpen env (.stream s) mode kw = ([], .ok (.passthrough s))) ∧
+    (∀ e, (pyOpen (S := S) env (.path p) mode kw).2 = .error e → e.filename = p) ∧
+    (mode.contains 'w' = false →
+      (env.isFile p = true →
+        pyOpen (S := S) env (.path p) mode kw = ([.tryOpen p mode kw],
+          match env.opener p mode kw with
+          | .ok h => .ok (.handle h)
+          | .error e => .error ⟨p, e.strerror⟩)) ∧
+      (env.isFile p = false →
+        (∀ e, env.locate p = .error e →
+          pyOpen (S := S) env (.path p) mode kw = ([.locate p], .error ⟨p, e.strerror⟩)) ∧
+        (∀ found, env.locate p = .ok found →
+          let target := match found with | some q => if q.isEmpty then p else q | none => p
+          pyOpen (S := S) env (.path p) mode kw = ([.locate p, .tryOpen target mode kw],
+            match env.opener target mode kw with
+            | .ok h => .ok (.handle h)
+            | .error e => .error ⟨p, e.strerror⟩)))) ∧
+    (mode.contains 'w' = true →
+      (∀ h, env.opener p mode kw = .ok h →
+        pyOpen (S := S) env (.path p) mode kw = ([.tryOpen p mode kw], .ok (.handle h))) ∧
+      (∀ e1, env.opener p mode kw = .error e1 →
+        (dget env.environ "TEXMFOUTPUT".toList = none →
+          pyOpen (S := S) env (.path p) mode kw = ([.tryOpen p mode kw], .error ⟨p, e1.strerror⟩)) ∧
+        (∀ dir, dget env.environ "TEXMFOUTPUT".toList = some dir →
+          (∀ h, env.opener (posixJoin dir p) mode kw = .ok h →
+            pyOpen (S := S) env (.path p) mode kw
+              = ([.tryOpen p mode kw, .tryOpen (posixJoin dir p) mode kw], .ok (.handle h))) ∧
+          (∀ e2, env.opener (posixJoin dir p) mode kw = .error e2 →
+            pyOpen (S := S) env (.path p) mode kw
+              = ([.tryOpen p mode kw, .tryOpen (posixJoin dir p) mode kw], .error ⟨p, e1.strerror⟩))))) := by
+  refine ⟨fun s => rfl, ?_, ?_, ?_⟩
+  · intro e he
+    simp only [pyOpen] at he
+    split at he
+    · cases he
+    · cases he; rfl
+  · intro hm
+    refine ⟨fun hf => ?_, fun hf => ⟨fun e he => ?_, fun found hfound => ?_⟩⟩
+    · simp only [pyOpen, hm, Bool.false_eq_true, if_false, openExisting, hf, if_true]
+      cases env.opener p mode kw <;> rfl
+    · simp only [pyOpen, hm, Bool.false_eq_true, if_false, openExisting, hf, he]
+    · simp only [pyOpen, hm, Bool.false_eq_true, if_false, openExisting, hf, hfound]
+      cases env.opener _ mode kw <;> rfl
+  · intro hm
+    refine ⟨fun h hh => ?_, fun e1 he1 => ⟨fun hnone => ?_, fun dir hdir => ⟨fun h hh => ?_, fun e2 he2 => ?_⟩⟩⟩
+    · simp only [pyOpen, hm, if_true, openOrCreate, hh]
+    · simp only [pyOpen, hm, if_true, openOrCreate, he1, hnone]
+    · simp only [pyOpen, hm, if_true, openOrCreate, he1, hdir, hh]
+    · simp only [pyOpen, hm, if_true, openOrCreate, he1, hdir, he2]
+
+/-- every branch of `C17_open_faults` is inhabited by the toy world: read of an existing file, read of a
+missing one, write that succeeds at once, write that succeeds at the fall-back, write that fails twice -/
+theorem C17_open_faults_nonvacuous :
+    pyOpen (S := Unit) Toy.env (.path "f.bib".toList) "rb".toList none
+      = ([.tryOpen "f.bib".toList "rb".toList none], .ok (.handle "f.bib".toList)) ∧
+    pyOpen (S := Unit) Toy.env (.path "g.bib".toList) "rb".toList none
+      = ([.locate "g.bib".toList, .tryOpen "g.bib".toList "rb".toList none],
+         .error ⟨"g.bib".toList, "No such file or directory".toList⟩) ∧
+    pyOpen (S := Unit) Toy.env (.path "/out/a.bbl".toList) "w".toList none
+      = ([.tryOpen "/out/a.bbl".toList "w".toList none], .ok (.handle "/out/a.bbl".toList)) ∧
+    pyOpen (S := Unit) Toy.env (.path "a.bbl".toList) "w".toList none
+      = ([.tryOpen "a.bbl".toList "w".toList none, .tryOpen "/out/a.bbl".toList "w".toList none],
+         .ok (.handle "/out/a.bbl".toList)) ∧
+    pyOpen (S := Unit) { Toy.env with environ := [("TEXMFOUTPUT".toList, "/ro".toList)] } (.path "a.bbl".toList) "w".toList none
+      = ([.tryOpen "a.bbl".toList "w".toList none, .tryOpen "/ro/a.bbl".toList "w".toList none],
+         .error ⟨"a.bbl".toList, "Permission denied".toList⟩) ∧
+    (OpenErr.message ⟨"a.bbl".toList, "Permission denied".toList⟩) = "unable to open a.bbl. Permission denied".toList := by
+  decide +kernel
+
+/-- The fall-back path is the directory, a slash, the name — for a relative name and a directory that
+does not already end in a slash; an absolute name is retried as it is (as `posixpath.join` has it). -/
+theorem C17_fallback_path (dir p : Path) :
+    (p.head? ≠ some '/' → dir ≠ [] → dir.getLast? ≠ some '/' → posixJoin dir p = dir ++ '/' :: p) ∧
+    (p.head? = some '/' → posixJoin dir p = p) := by
+  constructor
+  · intro h1 h2 h3
+    simp [posixJoin, h1, h2, h3]
+  · intro h; simp [posixJoin, h]
+
 end Pybtex.Props
